@@ -368,6 +368,27 @@ def compare(prep, res, m):
     return bad
 
 
+def judge_hash_race(job, r, r2):
+    tag, keys, a = job
+    rep = {"kind": "hashrace", "dir": tag, "keys": keys, "switch": a}
+    bad = []
+    if "race" not in r:
+        return [("harness: hash-race run failed: %s" % r, rep)]
+    for phase, outs in (("during the race", r["race"]), ("afterwards in the same process", r["again"]),
+                        ("afterwards in a fresh process", r2.get("results", [{}, {}]))):
+        for k, o in zip(keys, outs):
+            if o is None or "raise" in o or o.get("ok") != [1, k]:
+                bad.append(("two threads call f(%d) and f(%d) [%s cache, pre-emption after line %d of joblib.hashing]: f(%d) %s gave %s"
+                            % (keys[0], keys[1], tag, a, k, phase, o), rep))
+    for p, c in r.get("state", []):
+        if p.endswith("/output.pkl"):
+            pc = base.pcode(p, {})
+            if pc[0] != 7 or c[0] != "val" or c[1] != [1, pc[1]]:
+                bad.append(("after two threads called f(%d) and f(%d) [%s cache, pre-emption after line %d of joblib.hashing]: the entry %s "
+                            "holds %s (a value stored under another argument's key)" % (keys[0], keys[1], tag, a, p, c), rep))
+    return bad
+
+
 def hash_race(env, quick):
     """Two threads of ONE process call f(a) and f(b) (a != b) through the same MemorizedFunc; a pre-emption is forced at every
     line of joblib/hashing.py that thread 0 executes while computing its cache key (sys.monitoring LINE events).  Oracle:
@@ -384,7 +405,7 @@ def hash_race(env, quick):
     n_lines = max(probe.get("events", [30, 0])[0], 8)
     jobs = [(tag, keys, a) for tag in bases for keys in ([1, 2], [2, 1]) for a in range(0, n_lines + 1)]
     if quick:
-        jobs = [j for j in jobs if j[1] == [1, 2] or j[2] % 3 == 0]
+        jobs = [j for j in jobs if j[1] == [1, 2]]
 
     def one(job):
         tag, keys, a = job
@@ -397,22 +418,8 @@ def hash_race(env, quick):
     with cf.ThreadPoolExecutor(max(2, common.NCPU // 2)) as ex:
         res = list(ex.map(one, jobs))
     bad = []
-    for (tag, keys, a), r, r2 in res:
-        rep = {"kind": "hashrace", "dir": tag, "keys": keys, "switch": a}
-        if "race" not in r:
-            bad.append(("harness: hash-race run failed: %s" % r, rep))
-            continue
-        for phase, outs in (("during the race", r["race"]), ("afterwards in the same process", r["again"]),
-                            ("afterwards in a fresh process", r2.get("results", [{}, {}]))):
-            for k, o in zip(keys, outs):
-                if o is None or "raise" in o or o.get("ok") != [1, k]:
-                    bad.append(("two threads call f(%d) and f(%d) [%s cache, pre-emption after line %d of joblib.hashing]: f(%d) %s gave %s"
-                                % (keys[0], keys[1], tag, a, k, phase, o), rep))
-        for p, c in r.get("state", []):
-            if p.endswith("/output.pkl"):
-                kk = base.pcode(p, {})[1]
-                if c[0] != "val" or c[1] != [1, kk]:
-                    bad.append(("after two threads called f(%d) and f(%d) [pre-emption after line %d]: %s holds %s" % (keys[0], keys[1], a, p, c), rep))
+    for job, r, r2 in res:
+        bad += judge_hash_race(job, r, r2)
     return len(jobs), bad
 
 
@@ -551,10 +558,10 @@ def replay(ctx, path):
         for ps in ([S(1, [C(3)])] if rep["dir"] == "cold" else [S(1, [C(1), C(2)])]):
             base.run_child(base.child_spec(env.mods, d, ps))
         r = base.run_child(base.child_spec(env.mods, d, S(1, []), mode="off", hashrace={"keys": rep["keys"], "switch": rep["switch"]}))
-        outs = (r.get("race") or []) + (r.get("again") or [])
-        bad = [o for k, o in zip(rep["keys"] * 2, outs) if o is None or "raise" in o or o.get("ok") != [1, k]]
-        print("replay hash race:", r.get("race"), r.get("again"), "=>", bad or "property holds")
-        return 1 if bad or "race" not in r else 0
+        r2 = base.run_child(base.child_spec(env.mods, d, S(1, [C(k) for k in rep["keys"]]), mode="off")) if "race" in r else {}
+        bad = judge_hash_race((rep["dir"], rep["keys"], rep["switch"]), r, r2)
+        print("replay hash race:", r.get("race"), r.get("again"), "=>", [b[0] for b in bad] or "property holds")
+        return 1 if bad else 0
     if rep.get("kind") != "interleave":
         print("replay file names a broken proof/correspondence, nothing to execute:", rep.get("kind"))
         return 1
